@@ -79,7 +79,7 @@ ASSUMPTIONS = [
     "radial grids have strictly increasing nodes and non-zero weights (CubicSpline and the r^2 w division require it)",
     "between radial nodes only the library's own splines (public radial_component_splines) define the interpolant; exactness is claimed at nodal radii only",
     "Cartesian-gradient and spherical-derivative clauses are decided for r > 1e-6(1+|centre|) and |sin(phi)| >= 1e-4 (documented zero convention at the centre and on the z-axis is recorded, not decided); radial derivatives are decided everywhere incl. the centre and the z-axis, nu=3 not on a node sphere (one-sided)",
-    "tolerances: values 1e-9 of max|f| (per shell relaxed by (K+1)*4eps|centre|/r_i: only matters for a 1e-9 node of an off-centre grid); identities 1e-10; derivatives 1e-6 (Cartesian gradient 3e-6) of the largest derivative over the point set plus the conditioning floor of the numerical differentiation (1e-9|F|/h^nu fit, 1e-11|F|/h stencil); spherical average back-integration 1e-6 plus the rounding of the spline's last-node evaluation times r_n^2 w_n",
+    "tolerances: values 1e-9 of max|f| (per shell relaxed by (K+1)*64eps|centre|/r_i: only matters for a 1e-9 node of an off-centre grid); interpolant at the points of the last shell additionally 128eps*sum|c_k|h^(3-k) of the returned splines (scipy evaluates the last node with the previous polynomial piece); identities 1e-10; derivatives 1e-6 (Cartesian gradient 3e-6) of the largest derivative over the point set plus the conditioning floor of the numerical differentiation (1e-9|F|/h^nu fit, 1e-11|F|/h stencil); spherical average back-integration 1e-6 plus the rounding of the spline's last-node evaluation times r_n^2 w_n",
     "array forms: integer and non-float64 (N,3) point arrays are admissible `ndarray(N, 3)` arguments; integer/strided/Fortran/read-only forms must reproduce the float64 result to 1e-10, float32 to 1e-5 (unchanged tree: bitwise equal)",
     "derivative oracle = numerical differentiation of the returned callable (cubic fit along the ray, DFT on circles, 4th-order central differences), self-tested at start-up",
 ]
@@ -384,7 +384,7 @@ def _check_grid(ctx, g, info, rng, forms=False, note="", n_generic=None):
     # conditioning: grid points are stored as centre + r*u, so the direction of a point of shell i is only known to
     # eps*|centre|/r_i; a projection onto Y_lm (l <= K) inherits (K+1) times that.  Negligible except for r_i ~ 1e-9.
     with np.errstate(divide="ignore"):
-        delta = np.where(r > 0, 4 * np.finfo(float).eps * float(np.max(np.abs(c))) / np.where(r > 0, r, 1.0), 0.0)
+        delta = np.where(r > 0, 64 * np.finfo(float).eps * float(np.max(np.abs(c))) / np.where(r > 0, r, 1.0), 0.0)
     relax = 1.0 + (K + 1) * delta / TOL_VALUE  # per shell; == 1 to 1e-2 for every shell with r_i >= 1e-5 |centre|
     ctx.case_note(note + "max_conditioning_relaxation", float(relax.max()))
     ctx.case_note(note + "shells", int(g.n_shells))
@@ -424,7 +424,7 @@ def _check_grid(ctx, g, info, rng, forms=False, note="", n_generic=None):
         want[:nb] = gex[:nb]
         err = np.max(np.abs(nodal - want) / relax[None, :], axis=1) / Sg
         inb = ls_all <= L
-        ctx.check("spline-nodal-values", subj, np.max(err[inb]) if nb == gex.shape[0] else np.inf, TOL_VALUE, sig=_first_bad_l(err[inb], TOL_VALUE, ls_all[inb]), detail={"L": L, "max_err": float(np.nanmax(err[inb]))})
+        ctx.check("spline-nodal-values", subj, np.max(err[inb]) if nb == gex.shape[0] else np.inf, TOL_VALUE, sig=_first_bad_l(err[inb], TOL_VALUE, ls_all[inb]) if nb == gex.shape[0] else "components-missing", detail={"L": L, "max_err": float(np.nanmax(err[inb])), "n_splines": len(splines), "n_needed": int(gex.shape[0])})
         if np.any(~inb):
             ctx.check("spline-zero-above-band-limit", subj, np.max(err[~inb]), TOL_VALUE, sig=_first_bad_l(err[~inb], TOL_VALUE, ls_all[~inb]), detail={"L": L, "K": K})
     if splines is None:
@@ -450,7 +450,13 @@ def _check_grid(ctx, g, info, rng, forms=False, note="", n_generic=None):
         ctx.check("interpolant-output-layout", subj + ":values", ok_shape, sig="shape", detail={"got": list(np.shape(at_grid))})
         if ok_shape:
             shell_of = np.repeat(np.arange(g.n_shells), np.diff(g.indices))
-            e = np.max(np.abs(at_grid - fv) / relax[shell_of]) / S
+            # conditioning of scipy's PPoly at the LAST node (evaluated with the previous piece at h = x_n - x_{n-1}, up to
+            # 1e4 on Handy/Becke tails): rounding eps * sum_k |c_k| h^(3-k) per spline, |Y_lm| <= 2
+            hl = float(r[-1] - r[-2])
+            last_terms = sum(float(np.sum(np.abs(sp.c[:, -1]) * hl ** np.arange(sp.c.shape[0] - 1, -1, -1))) for sp in splines)
+            floor_pt = np.where(shell_of == g.n_shells - 1, 128 * np.finfo(float).eps * last_terms, 0.0)
+            ctx.case_note(note + "last_node_spline_rounding_floor_rel", float(floor_pt.max() / S))
+            e = np.max(np.abs(at_grid - fv) / (relax[shell_of] + floor_pt / (TOL_VALUE * S))) / S
             ctx.check("interpolant-at-grid-points", subj, e, TOL_VALUE, sig=_sig(e), detail={"worst_point": int(np.nanargmax(np.abs(at_grid - fv))) if np.all(np.isfinite(at_grid)) else "nan"})
     if F is None:
         return
